@@ -1237,4 +1237,209 @@ theorem nearest_first_core (cfg : Cfg P) (hdiv : cfg.divLimit = 0) (ho : OrderOK
       have := hmin x hxc hxne
       rw [ho.asymm _ _ this] at hxlt; cases hxlt
 
+/-- an honest peer that knows somebody (other than itself and the requester) nearer than itself names somebody
+    nearer than itself -/
+theorem honest_names_nearer (cfg : Cfg P) (ho : OrderOK cfg) (hK : 1 ≤ cfg.K) (net : Net P) (c m : P)
+    (hmk : m ∈ net.knows c) (hmc : m ≠ c) (hms : m ≠ cfg.self) (hmlt : cfg.lt m c = true) :
+    ∃ x ∈ honestAnswer cfg net c, cfg.lt x c = true := by
+  unfold honestAnswer
+  generalize hS : sortBy cfg.lt _ = S
+  have hw : WeakOrder cfg.lt := by
+    refine ⟨fun a b hab => ho.asymm _ _ hab, ?_⟩
+    intro a b c' h1 h2
+    cases hca : cfg.lt c' a with
+    | false => rfl
+    | true =>
+      by_cases hab : a = b
+      · rw [← hab, hca] at h2; cases h2
+      · rcases ho.total _ _ hab with h3 | h3
+        · rw [ho.trans _ _ _ hca h3] at h2; cases h2
+        · rw [h3] at h1; cases h1
+  have hmS : m ∈ S := by
+    rw [← hS, mem_sortBy]
+    refine List.mem_filter.2 ⟨hmk, ?_⟩
+    simp only [bne_iff_ne, ne_eq, Bool.and_eq_true]
+    exact ⟨hmc, hms⟩
+  cases S with
+  | nil => cases hmS
+  | cons x rest =>
+    have hmin : cfg.lt m x = false := by
+      have hsorted : (x :: rest).Pairwise (NotAfter cfg.lt) := by
+        rw [← hS]; exact sortBy_sorted _ hw _
+      rcases List.mem_cons.1 hmS with rfl | hm'
+      · exact ho.irrefl _
+      · exact (List.pairwise_cons.1 hsorted).1 m hm'
+    refine ⟨x, ?_, ?_⟩
+    · cases hk : cfg.K with
+      | zero => omega
+      | succ k => simp
+    · by_cases hxm : x = m
+      · rw [hxm]; exact hmlt
+      · rcases ho.total x m hxm with h1 | h1
+        · exact ho.trans _ _ _ h1 hmlt
+        · rw [h1] at hmin; cases hmin
+
+/-- every peer knows the whole network, each peer once -/
+structure FullKnowledge (net : Net P) : Prop where
+  all : ∀ c ∈ net.peers, ∀ m ∈ net.peers, m ∈ net.knows c
+  nodup : ∀ c, (net.knows c).Nodup
+
+theorem converging_of_full (cfg : Cfg P) (ho : OrderOK cfg) (hK : 1 ≤ cfg.K) (net : Net P) (hn : NetOK cfg net)
+    (hf : FullKnowledge net) : Converging cfg net := by
+  intro c g hc hg hgc
+  have hgne : g ≠ c := by intro heq; rw [heq, ho.irrefl] at hgc; cases hgc
+  have hgs : g ≠ cfg.self := by intro heq; rw [heq] at hg; exact hn.selfOut hg
+  exact honest_names_nearer cfg ho hK net c g (hf.all c hc g hg) hgne hgs hgc
+
+/-- Exactness: when every peer knows the whole network and answers honestly, a lookup that ran to completion returns
+    exactly the K globally nearest peers: the result is in strictly ascending distance, consists of network peers,
+    and every network peer that is not returned is farther than all K returned ones. -/
+theorem exact_K_core (cfg : Cfg P) (hdiv : cfg.divLimit = 0) (ho : OrderOK cfg) (net : Net P) (hn : NetOK cfg net)
+    (hf : FullKnowledge net) (hβ : 1 ≤ cfg.β) (hK : 1 ≤ cfg.K) (stop : LState P → Bool) (seeds : List P)
+    (hseeds : ∀ p ∈ seeds, p ∈ net.peers) (evs : List (Ev P)) (hsched : HonestSched cfg net evs) (s0 s : LState P)
+    (h0 : start cfg stop seeds = .ok s0) (h1 : runEvs cfg (fun _ => true) stop s0 evs = .ok s)
+    (hterm : s.terminated = some .completed) (hne : (result cfg s).peers ≠ []) :
+    (result cfg s).peers.Pairwise (fun a b => cfg.lt a b = true) ∧ (∀ p ∈ (result cfg s).peers, p ∈ net.peers) ∧
+    ∀ g ∈ net.peers, g ∉ (result cfg s).peers →
+      (result cfg s).peers.length = cfg.K ∧ ∀ p ∈ (result cfg s).peers, cfg.lt p g = true := by
+  obtain ⟨s0', h0', hi0⟩ := start_ok cfg stop seeds
+  rw [h0] at h0'; cases h0'
+  obtain ⟨s', h1', hinv⟩ := runEvs_ok cfg (fun _ => true) stop s0 evs hi0
+  rw [h1] at h1'; cases h1'
+  have hhon := runEvs_honest cfg hdiv net stop s0 s evs hsched hi0 (start_honest cfg net stop seeds s0 h0) h1
+  have h4 := runEvs_inv4 cfg (fun _ => true) stop s0 s evs hi0 (start_inv4 cfg stop seeds s0 h0) h1
+  have hlt := h4.completed hterm
+  have hsub : ∀ q ∈ ids s.ps, q ∈ net.peers := by
+    intro q hq
+    rcases runEvs_ids cfg (fun _ => true) stop s0 s evs hi0 h1 q hq with h2 | h2
+    · exact hseeds q (start_ids cfg stop seeds s0 h0 q h2)
+    · exact namedBy_honest cfg hdiv net hn evs hsched q h2
+  have hasc := candidates_ascending cfg ho s.ps notUnreachable hinv.nodup
+  have hRC : (result cfg s).peers = (candidates cfg s.ps notUnreachable).take cfg.K := rfl
+  -- everything known is a candidate (nobody is unreachable)
+  have hcand : ∀ q ∈ ids s.ps, q ∈ candidates cfg s.ps notUnreachable := by
+    intro q hq
+    obtain ⟨ex, hex, hxid⟩ := List.mem_map.1 hq
+    refine (mem_candidates _ _ _ _).2 ⟨ex, hex, hxid, ?_⟩
+    have := hhon.noUnreachable ex hex
+    cases hs : ex.state <;> simp_all [notUnreachable]
+  refine ⟨?_, ?_, ?_⟩
+  · rw [hRC]; exact hasc.sublist (List.take_sublist _ _)
+  · intro p hp
+    rw [hRC] at hp
+    obtain ⟨e, he, hid, _⟩ := (mem_candidates _ _ _ _).1 (List.mem_of_mem_take hp)
+    exact hsub p (by rw [← hid]; exact mem_ids_of_mem he)
+  · intro g hg hgR
+    rw [hRC] at hgR ⊢
+    by_cases hgin : g ∈ ids s.ps
+    · exact take_ascending_before_rest _ hasc cfg.K g (hcand g hgin) hgR
+    · -- the nearest candidate c0 was queried; its answer (the K nearest others) has been absorbed
+      cases hc : candidates cfg s.ps notUnreachable with
+      | nil => exact absurd (by rw [hRC, hc]; simp) hne
+      | cons c0 rest =>
+        have hc0mem : c0 ∈ candidates cfg s.ps notUnreachable := by rw [hc]; simp
+        obtain ⟨e0, he0, hid0, _⟩ := (mem_candidates _ _ _ _).1 hc0mem
+        have hc0ps : c0 ∈ ids s.ps := by rw [← hid0]; exact mem_ids_of_mem he0
+        have hq0 : getState s.ps c0 = some .queried := by
+          unfold lookupTermination at hlt
+          rw [List.all_eq_true] at hlt
+          have : c0 ∈ closestNIn cfg s.ps cfg.β notUnreachable := by
+            rw [closestNIn_eq_take, hc]
+            cases hb : cfg.β with
+            | zero => omega
+            | succ k => simp
+          simpa using hlt c0 this
+        obtain ⟨e, he, hid, hst⟩ := (getState_eq_some_iff s.ps hinv.nodup c0 .queried).1 hq0
+        have habs : ∀ x ∈ honestAnswer cfg net c0, x ∈ ids s.ps := by
+          intro x hx; exact hhon.absorbed e he hst x (by rw [hid]; exact hx)
+        have hgc0 : g ≠ c0 := fun heq => hgin (heq ▸ hc0ps)
+        have hgs : g ≠ cfg.self := by intro heq; rw [heq] at hg; exact hn.selfOut hg
+        -- g is known to c0 but was not among the K it named
+        let F := (net.knows c0).filter fun x => x != c0 && x != cfg.self
+        have hgF : g ∈ F := List.mem_filter.2 ⟨hf.all c0 (hsub c0 hc0ps) g hg, by simp [hgc0, hgs]⟩
+        have hFnd : F.Nodup := (hf.nodup c0).sublist List.filter_sublist
+        have hw : WeakOrder cfg.lt := by
+          refine ⟨fun a b hab => ho.asymm _ _ hab, ?_⟩
+          intro a b c' h1 h2
+          cases hca : cfg.lt c' a with
+          | false => rfl
+          | true =>
+            by_cases hab : a = b
+            · rw [← hab, hca] at h2; cases h2
+            · rcases ho.total _ _ hab with h3 | h3
+              · rw [ho.trans _ _ _ hca h3] at h2; cases h2
+              · rw [h3] at h1; cases h1
+        have hSs : (sortBy cfg.lt F).Pairwise (NotAfter cfg.lt) := sortBy_sorted _ hw _
+        have hSnd : (sortBy cfg.lt F).Nodup := (sortBy_perm cfg.lt F).nodup_iff.2 hFnd
+        have hH : honestAnswer cfg net c0 = (sortBy cfg.lt F).take cfg.K := rfl
+        have hgS : g ∈ sortBy cfg.lt F := (mem_sortBy _ _ _).2 hgF
+        have hgH : g ∉ (sortBy cfg.lt F).take cfg.K := fun h => hgin (habs g (hH ▸ h))
+        have hgd : g ∈ (sortBy cfg.lt F).drop cfg.K := by
+          have := List.take_append_drop cfg.K (sortBy cfg.lt F)
+          rw [← this] at hgS
+          rcases List.mem_append.1 hgS with h | h
+          · exact absurd h hgH
+          · exact h
+        have hHlen : (honestAnswer cfg net c0).length = cfg.K := by
+          rw [hH, List.length_take]
+          have : cfg.K < (sortBy cfg.lt F).length := by
+            by_cases hl : cfg.K < (sortBy cfg.lt F).length
+            · exact hl
+            · rw [List.drop_eq_nil_of_le (by omega)] at hgd; cases hgd
+          omega
+        have hHnd : (honestAnswer cfg net c0).Nodup := by rw [hH]; exact hSnd.sublist (List.take_sublist _ _)
+        have hHlt : ∀ x ∈ honestAnswer cfg net c0, cfg.lt x g = true := by
+          intro x hx
+          have hna : cfg.lt g x = false := take_le_drop _ hSs cfg.K x (hH ▸ hx) g hgd
+          have hxg : x ≠ g := fun heq => hgH (heq ▸ (hH ▸ hx))
+          rcases ho.total x g hxg with h | h
+          · exact h
+          · rw [h] at hna; cases hna
+        have hHc0 : ∀ x ∈ honestAnswer cfg net c0, x ≠ c0 := fun x hx => (honestAnswer_sub cfg net c0 x hx).2.1
+        -- c0 is the nearest peer of the network, in particular nearer than g
+        have hc0g : cfg.lt c0 g = true := by
+          rcases ho.total c0 g (Ne.symm hgc0) with h | h
+          · exact h
+          · exfalso
+            obtain ⟨x, hx, hxlt⟩ := converging_of_full cfg ho hK net hn hf c0 g (hsub c0 hc0ps) hg h
+            have hxc := hcand x (habs x hx)
+            have hxne : x ≠ c0 := hHc0 x hx
+            have := head_candidates_min cfg ho s.ps notUnreachable hinv.nodup c0 rest hc x hxc hxne
+            rw [ho.asymm _ _ this] at hxlt; cases hxlt
+        -- the K+1 peers c0 :: H are distinct candidates, all nearer than g
+        let W := c0 :: honestAnswer cfg net c0
+        have hWnd : W.Nodup := List.nodup_cons.2 ⟨fun h => hHc0 c0 h rfl, hHnd⟩
+        have hWC : ∀ x ∈ W, x ∈ candidates cfg s.ps notUnreachable := by
+          intro x hx
+          rcases List.mem_cons.1 hx with rfl | hx
+          · exact hc0mem
+          · exact hcand x (habs x hx)
+        have hWlt : ∀ x ∈ W, cfg.lt x g = true := by
+          intro x hx
+          rcases List.mem_cons.1 hx with rfl | hx
+          · exact hc0g
+          · exact hHlt x hx
+        have hWlen : W.length = cfg.K + 1 := by simp [W, hHlen]
+        rw [← hc]
+        generalize hT : (candidates cfg s.ps notUnreachable).take cfg.K = T
+        have hTlen : T.length ≤ cfg.K := by rw [← hT, List.length_take]; omega
+        -- whoever of W is outside T is after every element of T
+        have hout : ∀ x ∈ W, x ∉ T → T.length = cfg.K ∧ ∀ p ∈ T, cfg.lt p x = true := by
+          intro x hx hxT
+          rw [← hT] at hxT ⊢
+          exact take_ascending_before_rest _ hasc cfg.K x (hWC x hx) hxT
+        have hsome : ∃ x ∈ W, x ∉ T := by
+          apply Classical.byContradiction
+          intro hall
+          have hsubW : W ⊆ T := by
+            intro x hx
+            apply Classical.byContradiction
+            intro hxT; exact hall ⟨x, hx, hxT⟩
+          have := hWnd.length_le_of_subset hsubW
+          omega
+        obtain ⟨x0, hx0, hx0T⟩ := hsome
+        refine ⟨(hout x0 hx0 hx0T).1, ?_⟩
+        intro p hp
+        exact ho.trans _ _ _ ((hout x0 hx0 hx0T).2 p hp) (hWlt x0 hx0)
+
 end KadDHT.Lookup
